@@ -282,3 +282,51 @@ def rule_params_forwarded(ctx: Ctx, rep: Report, rule: str, module_prefixes: tup
         raise AnalysisError(f"{rule}: only {n} call sites with a same-named parameter were found, {floor} expected")
     rep.ob(rule, "sites_examined", True, "btclib:1", f"{n} call sites with a same-named parameter examined; those not listed as violations forward it (or are reviewed)")
     rep.floor(rule, 1)
+
+
+def _alias_arms(e: ast.AST) -> list[ast.AST]:
+    if isinstance(e, (ast.Name, ast.Attribute)):
+        return [e]
+    if isinstance(e, ast.IfExp):
+        return _alias_arms(e.body) + _alias_arms(e.orelse)
+    if isinstance(e, ast.BoolOp):
+        return [a for v in e.values for a in _alias_arms(v)]
+    return []
+
+
+INPLACE_OK = {
+    # (function, local): why `+=` on it cannot reach the caller's object
+    ("btclib.descriptors.miniscript._read_name", "end"): "an int position",
+    ("btclib.ecc.dsa.Sig.assert_valid", "r"): "an int scalar",
+}
+
+
+def rule_no_inplace_growth(ctx: Ctx, rep: Report, rule: str, module_prefixes: tuple[str, ...], floor: int) -> None:
+    """`x = <parameter or a field of one>` followed by `x += ...` grows the
+    caller's own object whenever it is a mutable buffer -- every Octets
+    argument and every bytes field may be a bytearray. The function then
+    changes what it was handed (a key gains four bytes, a message's magic
+    becomes 32 bytes long), answers differently the second time, and may hand
+    back the caller's own buffer. A local that is later grown in place starts
+    from a fresh object (`bytes(x)`, `x + y`, a slice), or is of a type `+=`
+    cannot mutate (reviewed table: ints)."""
+    n = 0
+    for q, fi in sorted(ctx.prog.functions.items()):
+        if not any(q.startswith(p_) for p_ in module_prefixes):
+            continue
+        params = set(fi.params())
+        grown = {a.target.id: a for a in own_nodes(fi.node) if isinstance(a, ast.AugAssign) and isinstance(a.op, (ast.Add, ast.BitOr, ast.Mult)) and isinstance(a.target, ast.Name)}
+        for nm, aug in sorted(grown.items()):
+            for d in own_nodes(fi.node):
+                if not (isinstance(d, ast.Assign) and any(isinstance(t, ast.Name) and t.id == nm for t in d.targets)):
+                    continue
+                arms = [r for r in _alias_arms(d.value) if (isinstance(r, ast.Name) and r.id in params) or
+                        (isinstance(r, ast.Attribute) and isinstance(r.value, ast.Name) and r.value.id in params)]
+                if not arms:
+                    continue
+                n += 1
+                why = INPLACE_OK.get((q, nm))
+                rep.ob(rule, f"{q}:{nm}", why is not None, fi.where(aug), f"reviewed: {why}" if why else
+                       f"`{norm(d)[:60]}` then `{norm(aug)[:40]}`: when `{norm(arms[0])}` is a bytearray the += extends the caller's own object")
+    rep.ob(rule, "scanned", True, "btclib:1", f"{n} grown aliases of parameters or their fields found in {module_prefixes}")
+    rep.floor(rule, floor)
